@@ -98,7 +98,15 @@ def run_case(spec):
         lines.append(f"xwarmfilter {len(spec['warm'])} {rows}")
         conv = opt.conv
         kept = [(conv.position2value(p), y) for p, y in zip(opt.X_sample, opt.Y_sample)]
-        expect.append(C.show_list(kept, lambda e: C.show_list(e[0], C.tok_rat) + ":" + C.tok_rat(e[1])))
+        expect.append(C.show_list(kept, lambda e: C.show_list(e[0], C.tok_rat) + ":" + tok_f(e[1])))
+        bad = [(v, y) for v, y in kept if not math.isfinite(float(y))]
+        if bad:
+            fails.append(dict(signature=f"C17|{tag}|non-finite-score-in-training-data", detail=f"warm start left (values, score) = {bad[0]} in X_sample/Y_sample", case=spec))
+        for v, y in kept:
+            ys = [rw["score"] for rw in spec["warm"] if all(math.isfinite(float(rw[n])) for n in names) and tuple(float(rw[n]) for n in names) == tuple(float(x) for x in v)]
+            if not any((float(y) == float(t)) for t in ys if math.isfinite(float(t))):
+                fails.append(dict(signature=f"C17|{tag}|training-score-not-of-its-row", detail=f"training pair {(v, y)}: no valid warm start row has these values with this score (rows with these values have scores {ys})", case=spec))
+                break
     lines.append("xreset 0")
     expect.append("ok")
     if n_warm:
